@@ -131,10 +131,11 @@ XalanDOMStringPool::get(
 
             assert(theActualLength == theNewString->length());
 
-            ++m_stringCount;
-
             // Insert the string into the hash table...
             m_hashTable.insert(*theNewString, theBucketIndex);
+
+            // Only count it once it's there...
+            ++m_stringCount;
 
             assert(m_stringCount == m_hashTable.size());
 
